@@ -88,6 +88,6 @@ Scenario(q) ==
                   [op |-> "dump", ctx |-> 0],
                   [op |-> "step", ctx |-> 1, free |-> TRUE, text |-> BPrelude],
                   [op |-> "step", ctx |-> 1, same_as |-> 2, text |-> BText(q.h)],
-                  [op |-> "dump", ctx |-> 1, same_as |-> 3, after |-> 2] >>]
+                  [op |-> "dump", ctx |-> 1, same_as |-> 3, after |-> 2, stepat |-> 5] >>]
 Emit == PrintT("@@S " \o ToJson(Scenario(p)))
 =============================================================================
